@@ -233,6 +233,44 @@ def run(check, mirror, tier):
             jobs.append(lambda c, crate=crate, tag=tag, setup_ym=setup_ym, ky=ky, km=km: decide(
                 c, crate, "no_panic/ym_duration_literal/%d_%d/%s" % (ky, km, tag), setup_ym, no_post, replay_ym_literal, rb, models=c14.MODELS,
                 enums=c14.ENUMS, describe=desc, budget_s=600, min_paths=1, timeout_ms=20000, known_predicates=KNOWN_PRED))
+    # --- text -> number: the Rust glue in front of the decimal library must not panic on any text (interior NUL characters) -------------
+    import charseq as _cs
+    crate_fn = MirCrate(mirror, ["feel-number"], overflow_checks=True, enum_crates=("common",))
+
+    def setup_from_str(ex, st):
+        s_, n, cps = _cs.fresh_string(ex, st, "text", 3)
+        inputs = dict(n=n, _cps=cps)
+        return "<FeelNumber as FromStr>::from_str", [s_], inputs
+
+    def m_cstring_new(ex, st, callee, args, dest_ty):
+        """CString::new(text): Err(NulError) iff the text contains a NUL character (std contract)"""
+        t = deref(ex, st, args[0]) if isinstance(args[0], Ref) else args[0]
+        q = _cs.seq_of(t)
+        has_nul = z3.Or([z3.And(q.len > i_, c.e == 0) for i_, c in enumerate(q.items)] + [z3.BoolVal(False)])
+        for st2 in ex.branch(st, has_nul):
+            yield st2, En("Result", z3.IntVal(1), {"Err": (Opaque("NulError"),)})
+        for st2 in ex.branch(st, z3.Not(has_nul)):
+            yield st2, En("Result", z3.IntVal(0), {"Ok": (Opaque("CString"),)})
+    FFI = [(re.compile(r"^CString::new::<.*>$"), m_cstring_new),
+           (re.compile(r"^Result::<CString, NulError>::unwrap_or_default$"), lambda ex, st, c, a, d: iter([(st, Opaque("CString"))])),
+           (re.compile(r"^<CString as Deref>::deref$|^CStr::as_ptr$|^<(dec::)?DEFAULT_CONTEXT as Deref>::deref$|^<(dec::)?DecContext as Clone>::clone$"),
+            lambda ex, st, c, a, d: iter([(st, Opaque("ffi"))])),
+           (re.compile(r"^<(dec::)?DecQuad as Default>::default$"), lambda ex, st, c, a, d: iter([(st, Opaque("DecQuad"))])),
+           (re.compile(r"(^|::)decQuadFromString$"), lambda ex, st, c, a, d: iter([(st, Opaque("ptr"))])),
+           (re.compile(r"(^|::)dec_is_finite$"), lambda ex, st, c, a, d: iter([(st, ex.fresh_bool("finite"))])),
+           (re.compile(r"^format$|^std::fmt::format$|^alloc::fmt::format$"), m_format_stub)]
+
+    def desc_fs(m, v):
+        n = model_value(m, v["n"])
+        return {"chars": [model_value(m, c.e) for c in v["_cps"][:n]]}
+
+    def replay_fs(i, rb):
+        lit = '"' + "".join("\\u%04X" % c if (c < 0x20 or c in (0x22, 0x5C) or c >= 0x7F) and c < 0x10000 else ("\\U%06X" % c if c >= 0x10000 else chr(c)) for c in i["chars"]) + '"'
+        _, out, _ = replay_call(rb, ["feel", "number(%s, null, null)" % lit])
+        return out.startswith("PANIC"), "number(%s, null, null) -> %s" % (lit, out[:100])
+    jobs.append(lambda c: decide(c, crate_fn, "no_panic/number_from_text", setup_from_str, no_post, replay_fs, rb, models=FFI + _cs.STR_MODELS, describe=desc_fs,
+                                 min_paths=2, known_predicates=KNOWN_PRED, prefer=lambda v: z3.And([z3.Or(c.e == 0, c.e == 0x31) for c in v["_cps"]])))
+
     # --- the lexer's scanning loops over the input text terminate: every iteration consumes a character --------------------------------
     import rsenum as _rs
     crate_fp = MirCrate(mirror, ["feel-parser", "feel"], overflow_checks=True)
